@@ -7,9 +7,11 @@ FE = ("fault_enumeration", "exhaustive enumeration of fault placements and byte 
 T = {
  "C01": (MC, "4.1", "every unit sequence up to the depth bound, for every (type, placement, delimiter, short name, build path, option set) cell, is interpreted by the command-line reference model (CLM) and replayed against the real parser; every successful parse is compared field by field", "depth 3 quick / 4 thorough; declarations generated with reflect.StructOf; conversion of alphabet values taken from the conversion model that C11 checks"),
  "C03": (MC, "4.3", "every token sequence up to the depth bound under all 8 pass-through option sets on 10 declarations: remaining arguments of the real parser vs the CLM, plus the CLM-independent subsequence test and what Execute/CommandHandler received", "depth 4 quick / 5 thorough over a 14-token alphabet; only mutually accepted vectors are compared"),
+ "C04": (EX, "4.4", "every byte string up to the bound as a token in 4 positions and every short vector of pathological tokens, under 32 parser option sets and two kitchen-sink declarations: returns normally, error typed as the CLM's fault says, stdout/stderr deltas exactly as PrintErrors prescribes", "byte strings <= 4/5 over 11 bytes; vectors <= 2/3 over 54 tokens; os.Stdout/os.Stderr swapped for files per worker"),
  "C06": (MC, "4.6", "all 64 required-masks over a 3-level command tree x positional count constraints x every unit sequence up to the bound: ErrRequired iff the CLM's missing set is non-empty, message names exactly the missing items, nothing executed", "depth 3 quick / 4 thorough; positional layouts deviation-bounded (one layout at a time); names recognised in messages through unique markers"),
  "C07": (MC, "4.7", "7 unknown-option policies x every sequence of valid tokens and near-miss names up to the bound; ErrUnknownFlag naming the option, verbatim pass-through, or exactly one handler call with (name, inline argument, unconsumed tail) and continuation on the returned slice", "depth 4 quick / 5 thorough over 29 units; handler name for clusters not asserted"),
  "C08": (MC, "4.8", "all command trees with <= 4 commands and depth <= 3, aliases / optional marks / name clashes as bounded deviations, both build paths, every token sequence up to the bound: Active chain, scoping (which counter moved), ErrCommandRequired / ErrUnknownCommand against the CLM", "depth 3 quick / 4 thorough; declaration deviations <= 1 quick / <= 2 thorough"),
+ "C09": (MC, "4.9", "command trees with an executable command at every node x {Execute, CommandHandler, completion mode} x {command succeeds, fails} x every token sequence incl. every fault kind at every position: call log vs CLM verdict (fault => no call; clean => exactly one call, innermost command, remaining arguments, error returned unchanged)", "depth 3 (4 on small trees); declaration deviations <= 1; plus a model-independent consistency check (a parser error that is not the command's own means no call)"),
  "C10": (MC, "4.10", "every positional layout (0..3 scalars of 3 types, optional trailing slice, on parser or command) x every interleaving with options and the terminator up to the bound, against the CLM's positional queue", "depth 4 quick / 6 thorough"),
  "C20": (EX, "4.20", "every (name set, hidden mask, word) up to the stated bound is run through the real parser and compared with textbook Levenshtein and the suggestion rule", "names of length <= 3, sets of <= 3 names, words <= 3 (quick) / <= 4 (thorough); names read back from the message by alphabet"),
 }
